@@ -72,7 +72,7 @@ fn run_cases(cases: &str, trace: &str) -> Result<(), String> {
             let text = String::from_utf8_lossy(&first[i]);
             let nobj = text
                 .lines()
-                .filter(|l| l.contains("\"ev\":\"opt\"") || l.contains("\"ev\":\"alt\"") || l.contains("\"ev\":\"reload\"") || l.contains("\"ev\":\"reopt\""))
+                .filter(|l| l.contains("\"ev\":\"opt\"") || l.contains("\"ev\":\"alt\"") || l.contains("\"ev\":\"reload\"") || l.contains("\"ev\":\"reopt\"") || l.contains("\"ev\":\"edit\""))
                 .count();
             let mut c2 = case.clone();
             c2["_again"] = serde_json::json!({"base": nobj});
@@ -92,8 +92,32 @@ fn run_cases(cases: &str, trace: &str) -> Result<(), String> {
     Ok(())
 }
 
+/// A subscriber that listens at DEBUG and discards everything: whether somebody listens to the
+/// engine's log output is ambient state a verdict must not depend on (C12).  Installed for the whole
+/// process when VERIF_TRACE=1 (the second process of the C12 check).
+struct DebugSink;
+impl tracing::Subscriber for DebugSink {
+    fn enabled(&self, m: &tracing::Metadata<'_>) -> bool {
+        *m.level() <= tracing::Level::DEBUG
+    }
+    fn new_span(&self, _: &tracing::span::Attributes<'_>) -> tracing::span::Id {
+        tracing::span::Id::from_u64(1)
+    }
+    fn record(&self, _: &tracing::span::Id, _: &tracing::span::Record<'_>) {}
+    fn record_follows_from(&self, _: &tracing::span::Id, _: &tracing::span::Id) {}
+    fn event(&self, _: &tracing::Event<'_>) {}
+    fn enter(&self, _: &tracing::span::Id) {}
+    fn exit(&self, _: &tracing::span::Id) {}
+    fn max_level_hint(&self) -> Option<tracing::level_filters::LevelFilter> {
+        Some(tracing::level_filters::LevelFilter::DEBUG)
+    }
+}
+
 fn main() {
     run::quiet_panics();
+    if std::env::var("VERIF_TRACE").map(|v| v == "1").unwrap_or(false) {
+        let _ = tracing::subscriber::set_global_default(DebugSink);
+    }
     let args: Vec<String> = std::env::args().collect();
     let r = match args.get(1).map(|s| s.as_str()) {
         Some("run") if args.len() == 4 => run_cases(&args[2], &args[3]),
